@@ -40,7 +40,7 @@ def floors(tier):
     return {"bf=0": 300, "bf=1": 300, "mode=GET": 200, "mode=SET": 100, "mode=POLL": 100,
             "count=0": 20, "count>=100": 5, "nested": 2, "variant": 20, "none-group": 20,
             "neg": 50, "scaled": 100, "after-failed-operation": 500, "via-reader": 1000,
-            "via-reader-after-twin": 300, "byte-probe": 50000, "ctor-payload-with-keywords": 2000, "application-registered-type": 200}
+            "via-reader-after-twin": 300, "byte-probe": 50000, "ctor-payload-with-keywords": 2000, "application-registered-type": 200, "first-use-order": 400}
 
 
 def eligible(t):
@@ -60,7 +60,8 @@ def plan(tier, seed):
     shards = [[] for _ in range(32)]
     for j, (_k, g) in enumerate(sorted(groups.items())):
         shards[j % 32].extend(g)
-    return [{"targets": part} for part in shards if part] + [{"what": "synthetic"}]
+    first = [{"what": "first-use", "part": i, "of": 4} for i in range(4)]
+    return [{"targets": part} for part in shards if part] + [{"what": "synthetic"}] + first
 
 
 def group_spans(nodes):
@@ -122,6 +123,34 @@ def run_shard(spec, ctx, acc):
                                     seed=core.derive(ctx["seed"], PROP, "synthetic", name, bf),
                                     max_examples=60 if ctx["tier"] == "quick" else 1500, known=known, rounds=2)
                     acc.classes["application-registered-type"] += acc.evaluations - before
+        return
+    if spec.get("what") == "first-use":
+        # the first use of a definition in a process decides what a memo holds: every
+        # class/ID group is met, in a pristine child process each, in orders the main
+        # loop (bitfields parsed first, catalogue order) never produces
+        from vp.props import c16
+
+        groups = {}
+        for t in targets:
+            if eligible(t):
+                groups.setdefault(t.clsid, []).append(t)
+        for j, (_k, g) in enumerate(sorted(groups.items())):
+            if j % spec["of"] != spec["part"]:
+                continue
+            for order in ("bytes-view-first", "reversed"):
+                seq = [(t, bf) for bf in (0, 1) for t in g] if order == "bytes-view-first" else [
+                    (t, bf) for t in reversed(g) for bf in (1, 0)]
+                cases = []
+                for t, bf in seq:
+                    try:
+                        nodes = c16.nominal_nodes(t)
+                    except Exception:  # noqa - the generator's limits are not the library's
+                        continue
+                    cases.append({"kind": "layout", "mode": t.mode, "clsid": t.clsid, "defname": t.defname, "bf": bf,
+                                  "nodes": nodes, "prelude": [], "via_reader": None})
+                case = {"kind": "sequence", "order": order, "cases": cases}
+                if core.handle(acc, check(case), case, known) and len(acc.violations) >= core.MAX_VIOL_PER_SHARD:
+                    return
         return
     acc.extra["unmodelled_variants"] = [f"{m}:{k.hex()}" for m, k in C.cat()[2]]
     acc.extra["unreachable_definitions"] = C.cat()[1]
@@ -212,10 +241,40 @@ def byte_probes(t, tier, seed):
             yield G.refill(nodes, bytes(b))[0]
 
 
+def check_sequence(case) -> core.Out:
+    """Layout cases run one after the other in a forked child of this process (which
+    runs nothing itself, so the child starts pristine)."""
+    from vp.props import c13
+
+    cases = case["cases"]
+
+    def run():
+        res = []
+        for c in cases:
+            o = check(c)
+            res.append([[k, d] for k, d in o.viol])
+        return res
+
+    res = c13._in_child(run)
+    out = core.Out(classes=["first-use-order", f"order={case.get('order')}"], dig=core.digest(case), n=len(cases),
+                   nt=len(cases))
+    out.nontrivial = len(cases) > 1
+    if isinstance(res, dict):
+        raise core.HarnessError(f"first-use child failed: {res.get('__error__')}")
+    for i, v in enumerate(res):
+        for k, d in v:
+            out.viol.append((k, f"(step {i + 1} of {len(cases)}, order {case.get('order')}) {d}"))
+    out.sample = {"order": case.get("order"), "steps": [f"{C.MODES[c['mode']]} {c['defname']} bf={c['bf']}" for c in cases][:8]}
+    return out
+
+
 def check(case) -> core.Out:
     import pyubx2
 
     from vp.props import synth
+
+    if case.get("kind") == "sequence":
+        return check_sequence(case)
 
     if case.get("defname") in synth.DEFS and C.find_target(case["mode"], bytes(case["clsid"]), case["defname"]) is None:
         synth.sight_unknown(case["defname"])
